@@ -46,8 +46,8 @@ class Patcher:
 
     def _handle_MoveNode(self, action, tree):
         node = tree.xpath(action.node, namespaces=self.nsmap)[0]
-        node.getparent().remove(node)
         target = tree.xpath(action.target)[0]
+        node.getparent().remove(node)
         target.insert(action.position, node)
 
     def _handle_UpdateTextIn(self, action, tree):
